@@ -53,6 +53,9 @@ class TimeFlow(O.Monitor):
         self.activity["records_checked"] += 1
         bad = []
         ty = r.record_type
+        for f in ("arrival_date", "waiting_time", "service_start_date", "service_time", "service_end_date", "time_blocked", "exit_date"):
+            if isinstance(getattr(r, f), bool):
+                bad.append("field-is-a-bool:" + f)
         try:
             if ty == "service":
                 if not (r.arrival_date <= r.service_start_date):
